@@ -350,6 +350,13 @@ func runC18(c *Ctx) {
 	R.Require("E5.go-capture", 4, "")
 	R.Require("E5.use-after-send", 3, "")
 	R.Require("E4.alias", 4, "")
+	// the command channel is closed by the connection's teardown while the session manager may send on it: the only
+	// ordering between the two is the synchronous leave that removes the session before anything is closed
+	R.Rules["E5.leave"] = "leave is a synchronous round trip through the manager that deletes exactly the given key: after it returns the manager holds no reference to the connection's command channel"
+	R.Rules["E5.stop-order"] = "teardown leaves the registry before anything else and runs once: the close of the command channel happens after the manager's last possible send on it (otherwise close and send race, and the send panics)"
+	c.sessionRules(false)
+	R.Require("E5.leave", 1, "")
+	R.Require("E5.stop-order", 2, "")
 	R.Explain = "May-race analysis by goroutine role (reader, writer, per-command timeout goroutine, session manager incl. the closures it executes, accept loop, API callers) over the VTA call graph: " +
 		"field ownership of the connection-level structs, what each go statement hands to the new goroutine, use-after-send for every pointer sent on a channel, and the buffer alias analysis of C09. " +
 		"It proves the absence of a class of unsynchronised accesses; it does not enumerate schedules. Races inside user handlers and in net/slog are out of scope; ordering through Message hand-over relies on the use-after-send rule."
